@@ -370,10 +370,19 @@ def t_alt(ctx):
         # re-assigned from the (reader, mode) pair the dispatched decoder returned
         reader = c[2][2][0][1] if ok and c[2][2][0][0] == "var" else None
         pair = [st for st in body if st[0] == "letpat" and len(st[1]) == 2 and st[2] is not None and st[2][0] == "match" and st[2][1][0] == "var"]
+        # ... or of a private dispatch helper called with (mode, reader, ..): `(reader, mode) = decode_segment(mode, reader, ..)?`
+        pair2 = [st for st in body if st[0] == "letpat" and len(st[1]) == 2 and st[2] is not None and st[2][0] == "try" and st[2][1][0] == "call"
+                 and st[2][1][1].startswith("decodation::") and any(is_var(x, reader) for x in st[2][1][2])]
         if ok and reader and len(pair) == 1:
             n_rest, n_mode = [n.split("#")[0] for n in pair[0][1]]
             modev = pair[0][2][1][1]
             ok = any(is_var(a[1], reader) and is_var(a[2], n_rest) for a in assigns) and any(is_var(a[1], modev) and is_var(a[2], n_mode) for a in assigns)
+        elif ok and reader and len(pair2) == 1:
+            full = pair2[0][1]
+            modes = [x[1] for x in pair2[0][2][1][2] if x[0] == "var" and x[1] != reader]
+            # the two results are stored back, by unique binding, into the reader and into the mode variable passed in
+            ok = any(is_var(a[1], reader) and a[2][0] == "var" and a[2][2] == full[0] for a in assigns) and \
+                any(a[1][0] == "var" and a[1][1] in modes and a[2][0] == "var" and a[2][2] == full[1] for a in assigns)
         else:
             ok = False
     obs.append(Ob(r, "main-loop", ok, "decode_parts loops while the reader is non-empty and continues with exactly the reader and mode the decoder returned"))
